@@ -178,8 +178,8 @@ func checkC17(c *h.Check) {
 			return
 		}
 		for k := 0; k < 4; k++ {
-			if !thorough && i > 0 && k < kinds[i-1] {
-				continue // quick: unordered slot assignments
+			if !thorough && i > 0 && k < kinds[i-1] && !(k == kF || kinds[i-1] == kF) {
+				continue // quick: unordered slot assignments, except that a failing package is tried in every position
 			}
 			rec(i+1, append(kinds, k))
 		}
